@@ -293,7 +293,7 @@ func writeEvidence(path, prop, tier string, seed int64, p *interp.Program, runs 
 			}
 		}
 		harnessInfo = append(harnessInfo, map[string]interface{}{"harness": r.name, "paths": res.Paths, "completed_paths": res.CompletedPaths, "assume_ended_paths": res.AssumeEnded,
-			"branch_decisions": res.Decisions, "solver_decided_forks": res.Forks, "ssa_steps": res.Steps, "labels": len(res.Labels), "queries": res.Queries, "solver_s": res.SolverTime.Seconds(), "wall_s": res.Wall.Seconds()})
+			"branch_decisions": res.Decisions, "solver_decided_forks": res.Forks, "pin_decided": res.PinDecided, "ssa_steps": res.Steps, "labels": len(res.Labels), "queries": res.Queries, "solver_s": res.SolverTime.Seconds(), "wall_s": res.Wall.Seconds()})
 	}
 	validated := 0
 	cexConfirmed := 0
